@@ -32,6 +32,16 @@ iv  s R1,… T1,… id:parent,… | o…          -> as ix   (indexSequenceV)
 dv1|dv2 Q R1,… T1,… id:parent,… | o… | o… | …  -> as id   (identifyTextV: findClosestsV + indexSequenceV + text selection loop)
 iv3 Q R1,… T1,… id:parent,… H C1,… | C i,… | o… | o… … | F f i,… | o… | …  -> as id3 (identify2V)
 ```
+```
+conc g r R1,… T1,… id:parent,… Q1,…,Qn j1,…,jk | o(Q1) | … | o(Qn) | o(R0) | … | o(Rm-1)
+       -> fc1(Q1) ; fc2(Q1) ; id1(Q1) ; id2(Q1) ; … ; fc1(Qn) ; … ; id2(Qn) ; ix(j1) ; … ; ix(jk)
+race conc …                        -> the same (the harness replays the case under the Go race detector)
+```
+`conc` = the answers of the searches / identifications / indexings run ONE AFTER THE OTHER on one data base (what the
+harness then repeats from `g` goroutines sharing the data base, `r` rounds): `findClosestsV` (both variants),
+`identifyText` on `findClosestsV` and on the text of the indices `indexSequenceV` builds (the unfolded body of
+`identifyTextV`, the index of each reference being computed at most once), `indexSequenceV` — every kernel call
+verbatim, only the candidate orders of the real sort are data.
 the `*v` operations get NOTHING from the real kernels: only the candidate order(s) of the real (unstable) sort; the
 model runs the verbatim `FastLCSEGFScoreByte` (shared scratch buffer), `D1Or0`, byte comparison of `Model/TagV.lean`
 itself — ambiguity codes included (the verbatim kernels are transcriptions, not readings).
@@ -42,6 +52,7 @@ Lengths and shared 4-mer counts are recomputed here from the sequences.
 namespace ObiVerif.Driver.C15
 open ObiVerif.Tag ObiVerif.Driver
 open ObiVerif.Kmer (Bytes)
+open ObiVerif.Lcs (Err)
 
 def listOf {α : Type} (f : String → Option α) (s : String) : Option (List α) :=
   if s = "_" then some [] else (s.splitOn ",").mapM f
@@ -381,11 +392,62 @@ def runIV3 (q rs ts tx h cnt : String) (secs : List String) : String :=
         | .ok z bm w (.family f) => s!"{z} {(membersOf f).getD bm 0} {w} lcs"
   | _, _, _, _, _, _ => "bad-op"
 
+/-- `conc`: the sub-cases run alone, one after the other (see the header); `identifyText … fc index` with
+`index b = (indexSequenceV … b …).map textIndex` is the body of `identifyTextV` (Model/TagTV.lean) -/
+def runConc (rs ts tx qs xs : String) (secs : List String) : String :=
+  match listOf unhex rs, listOf String.toNat? ts, listOf pairOf tx, listOf unhex qs, listOf String.toNat? xs with
+  | some refs, some taxids, some nodes, some queries, some ixs =>
+    if taxids.length ≠ refs.length ∨ secs.length ≠ queries.length + refs.length ∨ ixs.any (fun j => j ≥ refs.length) then
+      "bad-op" else
+    let qo := (queries.zip secs).mapM fun (q, sec) => orderOnly q refs sec
+    let ro := ((List.range refs.length).zip (secs.drop queries.length)).mapM fun (j, sec) =>
+      orderOnly (refs.getD j []) refs sec
+    match qo, ro with
+    | some qo, some ro =>
+      let t := mkTaxo nodes
+      let fuel := nodes.length + 1
+      let rf := refFun refs
+      let roA := ro.toArray
+      -- the index of each reference, computed when first needed, once
+      let idxT : Array (Thunk (Except Err (Tax.Res (List (Nat × Nat))))) :=
+        (List.range refs.length).toArray.map fun b =>
+          Thunk.mk fun _ => indexSequenceV t fuel taxids b rf (roA.getD b [])
+      let index : Nat → Except Err (Tax.Res (List (Nat × Nat))) := fun b =>
+        match idxT[b]? with
+        | some th => th.get
+        | none => indexSequenceV t fuel taxids b rf []
+      let indexText : Nat → Tax.Res (List (Nat × Text)) := fun b =>
+        match index b with
+        | .error _ => .error .panic
+        | .ok r => r.map (textIndex nameOf rankOf)
+      let showId : IdOut → String := fun
+        | .bad e => showBad e
+        | .ok z m n => s!"{z} {m} {n}"
+      let perQuery := (queries.zip qo).flatMap fun (q, o) =>
+        [Variant.tag1, Variant.tag2].map (fun v =>
+          match findClosestsV v q rf o with
+          | .error _ => "panic"
+          | .ok fc => showFC fc) ++
+        [Variant.tag1, Variant.tag2].map (fun v =>
+          match findClosestsV v q rf o with
+          | .error _ => showId (.bad .panic)
+          | .ok fc => showId (identifyText t fuel fc indexText))
+      let perRef := ixs.map fun j =>
+        match index j with
+        | .error _ => "panic"
+        | .ok (.ok idx) => showIndex idx
+        | .ok (.error e) => showBad e
+      " ; ".intercalate (perQuery ++ perRef)
+    | _, _ => "bad-data"
+  | _, _, _, _, _ => "bad-op"
+
 def run (line : String) : String :=
   match line.splitOn " | " with
   | [] => "bad-op"
   | head :: secs =>
     match words head, secs with
+    | ["conc", _g, _r, rs, ts, tx, qs, xs], secs => runConc rs ts tx qs xs secs
+    | ["race", "conc", _g, _r, rs, ts, tx, qs, xs], secs => runConc rs ts tx qs xs secs
     | ["cw", a, b], [] =>
       match unhex a, unhex b with
       | some a, some b => toString (common4 a b)
